@@ -2,7 +2,7 @@
 by the generator) and the lemmas about them. Written from the property statements, not from the code."""
 from z3 import (If, And, Or, Not, Implies, ForAll, Exists, IntVal, RealVal, BoolVal, StringVal, Function, RealSort, IntSort,
                 Const, Int, Real, MultiPattern)
-from pyvc.types import *
+from pyvc.ty import *
 from pyvc.engine import spec, SPEC, AXIOMS, LEMMAS
 from pyvc.lemmas import lemma
 
@@ -62,3 +62,71 @@ lemma('L_ArgEqR_empty_above', _P + [('m', REAL)], lambda ns, sl, X, i, m: Implie
 lemma('L_ArgEqR_empty_below', _P + [('m', REAL)], lambda ns, sl, X, i, m: Implies(m < MinR(ns, sl, X, i), ArgEqR(ns, sl, X, i, m) == empty(LSTR)), ind='i')
 lemma('L_ArgEqR_empty_below0', _P + [('m', REAL)], lambda ns, sl, X, i, m: Implies(And(i >= 1, m < MinR0(ns, sl, X, i)), ArgEqR(ns, sl, X, i, m) == empty(LSTR)), ind='i',
       hints=lambda ns, sl, X, i, m: [ArgEqR(ns, sl, X, 0, m) == empty(LSTR)])
+
+# ---- probability mass of the first i successors
+SumP = spec('SumP', [NS, INT], REAL)
+SPEC['SumP']['unfold'] = lambda ns, i: SumP(ns, i) == If(i <= 0, RealVal(0), SumP(ns, i - 1) + t_prob(ns_at(ns, i - 1)))
+
+AR = ARR(INT, REAL)
+
+
+def _absr(x):
+    return If(x >= 0, x, -x)
+
+
+def _inrange(ns, sl, i):
+    k = Int('k!ir')
+    return ForAll([k], Implies(And(0 <= k, k < i), And(0 <= t_tgt(ns_at(ns, k)), t_tgt(ns_at(ns, k)) < L_len(sl, SLT))))
+
+
+def _le(A, B, sl):
+    t = Int('t!le')
+    return ForAll([t], Implies(And(0 <= t, t < L_len(sl, SLT)), A[L_arr(sl, SLT)[t]] <= B[L_arr(sl, SLT)[t]]))
+
+
+def _near(A, B, e):
+    r = Int('r!nr')
+    return ForAll([r], _absr(A[r] - B[r]) <= e)
+
+
+def _pnonneg(ns, i):
+    k = Int('k!pn')
+    return ForAll([k], Implies(And(0 <= k, k < i), t_prob(ns_at(ns, k)) >= 0))
+
+
+_PM = [('ns', NS), ('sl', SLT), ('A', AR), ('B', AR), ('i', INT)]
+# monotonicity of the three operators in the value vector (successors in range; probabilities >= 0 for SumS)
+lemma('L_MaxS_mono', _PM, lambda ns, sl, A, B, i: Implies(And(_inrange(ns, sl, i), _le(A, B, sl)), MaxS(ns, sl, A, i) <= MaxS(ns, sl, B, i)), ind='i')
+lemma('L_MinS_mono', _PM, lambda ns, sl, A, B, i: Implies(And(_inrange(ns, sl, i), _le(A, B, sl)), MinS(ns, sl, A, i) <= MinS(ns, sl, B, i)), ind='i')
+lemma('L_SumS_mono', _PM, lambda ns, sl, A, B, i: Implies(And(_inrange(ns, sl, i), _le(A, B, sl), _pnonneg(ns, i)), SumS(ns, sl, A, i) <= SumS(ns, sl, B, i)), ind='i')
+_PL = [('ns', NS), ('sl', SLT), ('A', AR), ('B', AR), ('e', REAL), ('i', INT)]
+# 1-Lipschitz in the sup norm
+lemma('L_MaxS_lip', _PL, lambda ns, sl, A, B, e, i: Implies(And(_near(A, B, e), e >= 0), _absr(MaxS(ns, sl, A, i) - MaxS(ns, sl, B, i)) <= e), ind='i')
+lemma('L_MinS_lip', _PL, lambda ns, sl, A, B, e, i: Implies(And(_near(A, B, e), e >= 0), _absr(MinS(ns, sl, A, i) - MinS(ns, sl, B, i)) <= e), ind='i')
+lemma('L_SumS_lip', _PL, lambda ns, sl, A, B, e, i: Implies(And(_near(A, B, e), e >= 0, _pnonneg(ns, i)), _absr(SumS(ns, sl, A, i) - SumS(ns, sl, B, i)) <= e * SumP(ns, i)), ind='i')
+# bounds: values in [0,1] stay in [0,1]
+_PB = [('ns', NS), ('sl', SLT), ('A', AR), ('i', INT)]
+
+
+def _unit(A, sl):
+    t = Int('t!un')
+    return ForAll([t], Implies(And(0 <= t, t < L_len(sl, SLT)), And(0 <= A[L_arr(sl, SLT)[t]], A[L_arr(sl, SLT)[t]] <= 1)))
+
+
+lemma('L_MaxS_unit', _PB, lambda ns, sl, A, i: Implies(And(_inrange(ns, sl, i), _unit(A, sl)), And(0 <= MaxS(ns, sl, A, i), MaxS(ns, sl, A, i) <= 1)), ind='i')
+lemma('L_MinS_unit', _PB, lambda ns, sl, A, i: Implies(And(_inrange(ns, sl, i), _unit(A, sl)), And(0 <= MinS(ns, sl, A, i), MinS(ns, sl, A, i) <= 1)), ind='i')
+lemma('L_SumS_unit', _PB, lambda ns, sl, A, i: Implies(And(_inrange(ns, sl, i), _unit(A, sl), _pnonneg(ns, i)), And(0 <= SumS(ns, sl, A, i), SumS(ns, sl, A, i) <= SumP(ns, i))), ind='i')
+
+
+# the same three facts for BR (direct lemmas: case split on the class tag + the instances above)
+def _proper(c, ns):
+    return And(0 <= c, c <= 2, Implies(c == P_PROB, And(_pnonneg(ns, L_len(ns, NS)), SumP(ns, L_len(ns, NS)) == 1)))
+
+
+_PBR = [('c', INT), ('ns', NS), ('sl', SLT), ('A', AR), ('B', AR)]
+lemma('L_BR_mono', _PBR, lambda c, ns, sl, A, B: Implies(And(_inrange(ns, sl, L_len(ns, NS)), _le(A, B, sl), _proper(c, ns)), BR(c, ns, sl, A) <= BR(c, ns, sl, B)),
+      hints=lambda c, ns, sl, A, B: [LEMMAS[n](ns, sl, A, B, L_len(ns, NS)) for n in ('L_MaxS_mono', 'L_MinS_mono', 'L_SumS_mono')] + [L_len(ns, NS) >= 0])
+lemma('L_BR_lip', _PBR + [('e', REAL)], lambda c, ns, sl, A, B, e: Implies(And(_near(A, B, e), e >= 0, _proper(c, ns)), _absr(BR(c, ns, sl, A) - BR(c, ns, sl, B)) <= e),
+      hints=lambda c, ns, sl, A, B, e: [LEMMAS[n](ns, sl, A, B, e, L_len(ns, NS)) for n in ('L_MaxS_lip', 'L_MinS_lip', 'L_SumS_lip')] + [L_len(ns, NS) >= 0])
+lemma('L_BR_unit', [('c', INT), ('ns', NS), ('sl', SLT), ('A', AR)], lambda c, ns, sl, A: Implies(And(_inrange(ns, sl, L_len(ns, NS)), _unit(A, sl), _proper(c, ns)), And(0 <= BR(c, ns, sl, A), BR(c, ns, sl, A) <= 1)),
+      hints=lambda c, ns, sl, A: [LEMMAS[n](ns, sl, A, L_len(ns, NS)) for n in ('L_MaxS_unit', 'L_MinS_unit', 'L_SumS_unit')] + [L_len(ns, NS) >= 0])
